@@ -93,11 +93,16 @@ func TestEnumCatalogue(t *testing.T) {
 		{Min: orb.Point{10, 10}, Max: orb.Point{11, 11}},
 	}
 	var values []orb.Geometry
-	for _, s := range sets {
+	worldFrom := 0 // values from this index on (up to AllGeometries) use the world-sized coordinate set
+	for si, s := range sets {
+		if si == len(sets)-1 {
+			worldFrom = len(values)
+		}
 		values = append(values, catalogue(s.p, s.q, s.r, s.h)...)
 		values = append(values, orb.MultiLineString{nil}, orb.Polygon{nil}, orb.MultiPolygon{nil}, orb.MultiPolygon{{nil}}, orb.MultiPolygon{{s.r, nil}},
 			orb.Polygon{s.r, nil}, orb.Polygon{nil, s.r}, orb.MultiLineString{nil, {s.p, s.q}}, orb.MultiPolygon{nil, {s.r}})
 	}
+	worldTo := len(values)
 	values = append(values, orb.AllGeometries...)
 	wraps := []func(orb.Geometry) orb.Geometry{
 		func(g orb.Geometry) orb.Geometry { return g },
@@ -109,7 +114,7 @@ func TestEnumCatalogue(t *testing.T) {
 	}
 	currentTest = "TestEnumCatalogue"
 	var idx, size int64
-	for _, v := range values {
+	for vi, v := range values {
 		for wi, w := range wraps {
 			if v == nil && wi > 0 {
 				continue
@@ -117,13 +122,18 @@ func TestEnumCatalogue(t *testing.T) {
 			for bi, b := range boxes {
 				idx++
 				size++
-				if !stats.Mine(idx) {
+				// (the parameter index cycles with period 4 = the quick shard count: shard by a mixed index)
+				if !stats.Mine(idx + int64(vi) + int64(wi)) {
 					continue
 				}
 				g := w(deepCopy(v))
+				zoom := []int{5, 0, 9, 3}[bi]
+				if vi >= worldFrom && vi < worldTo && zoom > 4 {
+					zoom = 4 // world-sized rings: filling 2^18 tiles per call adds nothing
+				}
 				c := Case{
 					G: gG(g), H: gG(otherKind(g)), World: "grid", Box: gen.FromBound(b), Q: gen.P{1.25, 0.75},
-					Zoom: []int{5, 0, 9, 3}[bi], Thr: gen.F([]float64{0.5, 0, 10, 1}[bi]), Keep: []int{3, 0, 2, 5}[bi],
+					Zoom: zoom, Thr: gen.F([]float64{0.5, 0, 10, 1}[bi]), Keep: []int{3, 0, 2, 5}[bi],
 					Factor: []int{0, 1, 10, 1000000}[bi], SRID: []int{4326, 0, 1, 3857}[bi], Proj: []string{"toMercator", "toWGS84", "affine", "toMercator"}[bi],
 					Layout: []string{"shared", "spare", "shared", "spare"}[bi],
 				}
